@@ -13,6 +13,52 @@ import famcheck, fam_c19
 LEVEL = "model_checking"
 
 
+def collision_class(a, b):
+    """what distinguishes two inputs that got the same name (the identity of a non-injectivity finding)"""
+    def split(x):
+        i = x.rfind("|")
+        pre, body = (x[:i], x[i + 1:]) if i >= 0 and x[i + 1:].startswith(("{", "[")) else ("", x)
+        try:
+            return pre, json.loads(body)
+        except ValueError:
+            return pre, None
+    pa, ta = split(a)
+    pb, tb = split(b)
+    if ta is None or tb is None:
+        if a.replace("#", "_") == b.replace("#", "_"):
+            return "hash-vs-underscore"
+        return "names"
+    if pa != pb:
+        return "prefix"
+
+    def diff(x, y, under_fn=False):
+        if not isinstance(x, dict) or not isinstance(y, dict):
+            return ("function-type-shape" if under_fn else "leaf") if x != y else None
+        kx, ky = str(x.get("k")), str(y.get("k"))
+        fn = under_fn or kx in ("fn", "func") or ky in ("fn", "func")
+        if kx != ky:
+            return "function-type-shape" if fn else "/".join(sorted([kx, ky]))
+        if kx == "array" and x.get("len") != y.get("len"):
+            return "array-length"
+        for key in sorted(set(x) | set(y)):
+            u, v = x.get(key), y.get(key)
+            if isinstance(u, list) and isinstance(v, list):
+                if len(u) != len(v):
+                    return "function-type-shape" if fn else f"{kx}-arity"
+                for p_, q_ in zip(u, v):
+                    d_ = diff(p_, q_, fn)
+                    if d_:
+                        return d_
+            elif isinstance(u, dict) or isinstance(v, dict):
+                d_ = diff(u, v, fn)
+                if d_:
+                    return d_
+            elif u != v:
+                return "function-type-shape" if fn else f"{kx}-{key}"
+        return None
+    return diff(ta, tb) or "equal-inputs"
+
+
 def serde(t):
     k = t["k"]
     if k == "prim":
@@ -87,8 +133,13 @@ def run(tier, rep):
     for f, ok in res["injective"].items():
         if not ok:
             cols = res["collisions"][f]
-            for a_, b_, out in cols[:5]:
-                rep.violation(f"not-injective:{f}", {"inputs": [a_, b_], "same_output": out, "collisions": len(cols)})
+            seen_cls = set()
+            for a_, b_, out in cols:
+                cls = collision_class(a_, b_)
+                if cls in seen_cls:
+                    continue
+                seen_cls.add(cls)
+                rep.violation(f"not-injective:{f}:{cls}", {"inputs": [a_, b_], "same_output": out, "collisions": len(cols)})
     for f, ok in res["legal"].items():
         if not ok:
             bad = [t for t in table if t["f"] == f and not (t["out"][:1].isalpha() or t["out"][:1] == "_") ][:3]
